@@ -383,7 +383,41 @@ func stripNulls(v val.V) val.V {
 }
 
 func TestC04Random(t *testing.T) {
-	RunRandom(t, "C04", "random", func(t *rapid.T) PairCase { return genEqPair(t, c04OptSets, true) }, checkC04)
+	RunRandom(t, "C04", "random", func(t *rapid.T) PairCase {
+		if gen.Chance(t, "lookAlikes", 4) {
+			// Equals under SetKeys is set equality of whole members: members
+			// that share their key values but differ elsewhere stay distinct
+			n := gen.Int(t, "nLookAlikes", 2, 3)
+			var a []val.V
+			for i := 0; i < n; i++ {
+				a = append(a, map[string]val.V{"id": 1.0, "v": float64(i)})
+			}
+			if gen.Chance(t, "otherMember", 50) {
+				a = append(a, map[string]val.V{"id": 2.0, "v": 0.0})
+			}
+			var b []val.V
+			switch gen.Int(t, "lookAlikeB", 0, 3) {
+			case 0: // the last look-alike only
+				b = append(b, val.Clone(a[n-1]))
+				b = append(b, a[n:]...)
+			case 1: // reversed
+				for i := len(a) - 1; i >= 0; i-- {
+					b = append(b, val.Clone(a[i]))
+				}
+			case 2: // the first one twice
+				b = append([]val.V{val.Clone(a[0])}, a...)
+			default: // one of them changed
+				b = val.Clone(val.V(a)).([]val.V)
+				b[0].(map[string]val.V)["v"] = "changed"
+			}
+			var av, bv val.V = a, b
+			if gen.Chance(t, "underKey", 40) {
+				av, bv = map[string]val.V{"k": a}, map[string]val.V{"k": b}
+			}
+			return PairCase{A: val.JSON(av), B: val.JSON(bv), Opts: gen.Pick(t, "lookAlikeOpts", []string{"setkeys:id", "setkeys:id", "set", "mset"})}
+		}
+		return genEqPair(t, c04OptSets, true)
+	}, checkC04)
 }
 
 func TestC04Exhaustive(t *testing.T) {
